@@ -459,6 +459,28 @@ def main(ctx):
                 for im in IMS:
                     yield (cont, x, w, im)
 
+    # offset-dominated data (Julian dates, frequencies in Hz, negative offsets): |mean| / deviation up to 1e11.  The
+    # reference takes the deviation about the returned mean, so a two-pass implementation agrees to rounding;
+    # raw-moment formulas (<x^2> - <x>^2) lose everything here
+    OFFS = (2459000.5, 1.4e9, -7.5e6, 1e15, 3.0e-3)
+    SPREAD = (-0.01, 0.0, 0.01, 0.005, -0.0025)
+    for off in OFFS:
+        units1.append(("f8", "offset", 0, (off,)))
+
+    _expand1_base = expand1
+
+    def expand1(u):
+        if u[1] != "offset":
+            for c in _expand1_base(u):
+                yield c
+            return
+        off = u[3][0]
+        for L in (2, 3, 5):
+            x = tuple(off + (abs(off) * 1e-9 if abs(off) > 1e12 else 1.0) * SPREAD[i] for i in range(L))
+            for w in ((1.0,) * L, tuple([1.0, 2.0, 0.5, 1e6, 2.0][:L]), tuple([0.0, 1.0, 1.0, 2.0, 0.5][:L])):
+                for im in (None, off):
+                    yield ("f8", x, w, im)
+
     ctx.lattice("wmom-1d", units1, one_w1, expand=expand1,
                 bounds=dict(max_len_full=L1, max_len_list_i8=LC, len_reduced=LR, x_alphabet=list(VG),
                             w_alphabet=list(W), x_reduced=list(VR), w_reduced=list(WR),
